@@ -976,6 +976,40 @@ fn run_stream<K: Kind>(st: &mut Stream, stream: &str, rng: &mut Rng, n_random: u
     }
 }
 
+/// Exhaustion through a FORK: a branch may report `is_exhausted()` only when no frame remains for it — neither queued
+/// by the other branch nor in the source; and `until_exhausted` on a lagging branch still delivers every frame it is
+/// owed (oracle only; both branch kinds, every lag within the capacity)
+fn fork_exhaustion(st: &mut Stream, rng: &mut Rng) {
+    use dasp_ring_buffer as ring_buffer;
+    for cap in 1..=4usize { for len in 0..=7usize { for lag in 0..=cap.min(len) { for rc in [false, true] {
+        let src: Vec<[i16; 1]> = (0..len).map(|i| [100 + i as i16 + rng.range(0, 3) as i16 * 1000]).collect();
+        let case = format!("fork over from_iter({:?}), ring capacity {}, {} branches: A pulls all {} frames, B only {}; then B is asked is_exhausted() before each of its remaining pulls and drained with until_exhausted()", src, cap, if rc { "by_rc" } else { "by_ref" }, len, len - lag);
+        mark(0, &case);
+        let r = guarded(|| {
+            let mut fork = signal::from_iter(src.clone()).fork(ring_buffer::Bounded::from(vec![[0i16; 1]; cap]));
+            let mut early = None; let mut rest: Vec<[i16; 1]> = vec![];
+            macro_rules! drive { ($a:ident, $b:ident) => { {
+                // B follows A closely enough that the lead never exceeds the capacity, and ends `lag` frames behind
+                let mut pulled_b = 0usize;
+                for i in 0..len { if i - pulled_b >= lag && pulled_b < len - lag { $b.next(); pulled_b += 1; } $a.next(); }
+                while pulled_b < len - lag { $b.next(); pulled_b += 1; }
+                for k in 0..lag { if $b.is_exhausted() && early.is_none() { early = Some(k); } rest.push($b.next()); }
+            } } }
+            if rc { let (mut a, mut b) = fork.by_rc(); drive!(a, b); } else { let (mut a, mut b) = fork.by_ref(); drive!(a, b); }
+            (early, rest)
+        });
+        st.count("fork_branch_exhaustion");
+        match r {
+            None => st.oracle_fail("fork panicked although the lead never exceeded the capacity", &case, "no panic", "panic"),
+            Some((early, rest)) => {
+                let want: Vec<[i16; 1]> = src[len - lag..].to_vec();
+                if early.is_none() && rest == want { st.oracle_ok(lag as u64 + 1); }
+                else { st.oracle_fail("a lagging fork branch reported exhaustion while frames were still queued for it, or did not deliver them", &case, &format!("{:?}, never exhausted before the last of them", want), &format!("{:?}, is_exhausted() true with {:?} frame(s) already taken of the {} owed", rest, early, lag)); }
+            }
+        }
+    } } } }
+}
+
 fn main() {
     let a = Args::parse();
     let stream = a.stream.clone();
@@ -995,6 +1029,7 @@ fn main() {
     run_stream::<[i64; 2]>(&mut st, &stream, &mut rng, n / 2, w, d, None);
     run_stream::<[u64; 2]>(&mut st, &stream, &mut rng, n / 2, w, d, None);
     // call-site resolution: every adaptor method on the concrete type of every other adaptor (see typed.rs)
+    if stream == "exhaust" { fork_exhaustion(&mut st, &mut rng); }
     if stream == "adapt" {
         let rounds = if t { 300 } else { 40 };
         typed::stereo_i16::run_all(&mut st, &mut rng, rounds);
